@@ -35,6 +35,9 @@ type C15Case struct {
 	Readers   [][]CachedRead `json:"readers"`
 	Probes    []ProbeSpec    `json:"probes"`
 	TdIDs     []string       `json:"td_ids,omitempty"` // resources for which a controller asks a teardown-bound context
+	// TdSiblingMs > 0: before each of those contexts a sibling context for the same resource is obtained under its own
+	// parent, which is cancelled after this many virtual ms (another reader of the resource going away)
+	TdSiblingMs int `json:"td_sibling_ms,omitempty"`
 	StartMs   int            `json:"start_ms,omitempty"`
 }
 
@@ -124,6 +127,9 @@ func (c15) Gen(seed uint64, tier string) Case {
 	for i := 0; i < r.Intn(3); i++ {
 		c.TdIDs = append(c.TdIDs, fmt.Sprintf("r%d", r.Intn(nids)))
 	}
+	if len(c.TdIDs) > 0 && r.Bool(0.5) {
+		c.TdSiblingMs = 1 + r.Intn(2000)
+	}
 	c.StartMs = r.Intn(500)
 	c.Policy = genPolicy(r, []string{"rt/", "rt", "writer", "reader"})
 	return c
@@ -162,6 +168,11 @@ func (c15) Shrink(cs Case) []Case {
 	for i := range c.Probes {
 		n := cloneJSON(c)
 		n.Probes = dropAt(n.Probes, i)
+		out = append(out, n)
+	}
+	if c.TdSiblingMs > 0 {
+		n := cloneJSON(c)
+		n.TdSiblingMs = 0
 		out = append(out, n)
 	}
 	for i := range c.TdIDs {
@@ -290,6 +301,18 @@ func (c15) Run(t *testing.T, cs Case, trace bool) *Outcome {
 				for _, id := range tdp.ids {
 					if _, have := tdp.ctxs[id]; have {
 						continue
+					}
+					if c.TdSiblingMs > 0 {
+						sctx, scancel := context.WithCancel(ctx)
+						if _, err := r.ContextWithTeardown(sctx, resource.NewMetadata("ns1", TypeA, id, resource.VersionUndefined)); err == nil {
+							simrt.Go("td-sibling-drop", func() {
+								simrt.Sleep(time.Duration(c.TdSiblingMs) * time.Millisecond)
+								out.fault("cancel:sibling-teardown-context")
+								scancel()
+							})
+						} else {
+							scancel()
+						}
 					}
 					tctx, err := r.ContextWithTeardown(ctx, resource.NewMetadata("ns1", TypeA, id, resource.VersionUndefined))
 					if err != nil {
